@@ -366,9 +366,11 @@ func (w *worker[T, JobType]) initPoolNode() *linkedlist.Node[pool.Node[JobType]]
 		if err := j.Close(); err != nil {
 			w.sendError(err)
 		}
+		// counted before the slot is released: a caller returning from
+		// WaitUntilFinished must already see this job in Completed
+		w.metrics.incCompleted()
 		w.freePoolNode(node)
 		w.releaseWaiters(w.curProcessing.Add(^uint32(0)))
-		w.metrics.incCompleted()
 		w.notifyToPullNextJobs()
 	})
 
